@@ -23,7 +23,7 @@ PLAN = {
     'quick': [(2, 4, 1)],
     'thorough': [(2, 5, 1), (6, 6, 1)],
 }
-PRIOS = [-3, -1, 0, 1, 5]
+PRIOS = [-3, -1, 0, 1, 1000]      # "any integer": also one that is not a cached small int
 KINDCLS = {'B': BasicState, 'C': CompoundState, 'O': OrthogonalState, 'F': FinalState,
            'HS': ShallowHistoryState, 'HD': DeepHistoryState}
 
@@ -49,7 +49,7 @@ def make_spec(task):
         for kind in ('pre', 'post', 'inv'):
             s[kind] = ["C('s/%s:%s%d', v)" % (s['name'], kind, i) for i in range(2)]
     for t in spec['transitions']:
-        t['priority'] = PRIOS[t['tid'] % 5]
+        t['priority'] = PRIOS[t["tid"] % 5] if t["tid"] % 7 else -400
         for kind in ('pre', 'post', 'inv'):
             t[kind] = ["C('t/%d:%s%d', v)" % (t['tid'], kind, i) for i in range(2)]
     if spec['transitions']:
